@@ -22,9 +22,11 @@ LEAN_MODULES = ['VotelibProofs.Props.C07']
 GEN_MODULES = ['Divisor']
 REQUIRED = ['bipropCheck_sound', 'bipropCheckL_sound', 'infeasible_sound', 'infeasibleCheckL_sound',
             'isRounding_zero_votes', 'd_hondt_signpost', 'sainte_lague_signpost',
+            'd_hondt_signpostDiv', 'sainte_lague_signpostDiv',
             'augment_preserves_columns', 'transfer_cell_up', 'transfer_cell_down', 'transfer_preserves_inv',
             'update_preserves_inv', 'step_done_rows', 'run_ok_rows', 'run_preserves_columns', 'run_ok_sound',
-            'evaluate_ok_sound']
+            'evaluate_ok_sound', 'initState_consistent', 'evaluate_sound', 'evaluate_marginals',
+            'partySeats_divisor_method', 'districtSeats_divisor_method']
 REQUIRED_COUNTERS = ['transfer_step', 'coef_update', 'zero_cell', 'refusal', 'tie_in_initial_allocation',
                      'zero_vote_party', 'seats_total', 'seats_dict', 'seats_custom', 'd_hondt', 'sainte_lague',
                      'cert_checked_by_lean', 'cut_checked_by_lean', 'large_counts', 'str_keys', 'init_ok_confirmed',
@@ -37,8 +39,9 @@ RULE = ('2-6 districts x 2-6 parties, non-negative integer votes (tiny 0-3, smal
 NOT_VERIFIED = [
     'termination of the tie-and-transfer loop is runtime behaviour: monitored by wall clock only (5 s per call); the Lean '
     'port takes fuel and reports OutOfFuel instead of diverging',
-    'the tie-and-transfer algorithm itself is not proved to reach a fixed point; every output is certified instead '
-    '(partial correctness of the port: run_ok_sound under the decidable hypothesis that the initial state is consistent)',
+    'the tie-and-transfer algorithm is not proved to reach a fixed point (no termination / no-spurious-refusal theorem); '
+    'every output is certified instead.  Partial correctness of the port IS proved without semantic hypotheses '
+    '(evaluate_sound, evaluate_marginals); it carries over to votelib only through the differential correspondence',
     'frozenset iteration order of _districts_unsat: modelled as ascending district index (CPython order for the small-int '
     'keys used in the correspondence); with str keys the order depends on the hash seed, those cases are certificate-checked '
     'only',
@@ -46,20 +49,21 @@ NOT_VERIFIED = [
     'SIGNPOST_QS lookup: q is read from the real class attribute and passed to the model',
     'sparse district dicts (a party key missing instead of 0) are not modelled (open finding: KeyError)',
 ]
-UNPROVED = ['total correctness of tie-and-transfer (termination / a feasible instance is never refused): not proved; every '
-            'refusal is certified infeasible by the verified cut checker instead',
-            'the initial state satisfies the loop invariant for every tie-free input (needs the optimality theorem of '
-            'HighestAverages, C01): taken as the decidable hypothesis stateOk in evaluate_ok_sound and confirmed by the driver '
-            'on every generated case (counter init_ok_confirmed)']
+UNPROVED = ['total correctness of tie-and-transfer (termination; a feasible instance is never refused): not proved - every '
+            'refusal of the real evaluator is certified infeasible by the verified cut checker instead, termination is '
+            'monitored by wall clock']
 EXHAUSTIVE = {'thorough': True}
 TECHNIQUE = ('verified certificate checkers in Lean 4 (soundness proved for matrices of any size) applied to every output of the '
              'real evaluator, exact certificates computed by the harness; plus a fuelled Lean port of tie-and-transfer with '
              'partial-correctness invariant, compared step for step with votelib')
 LEVEL_TEXT = ('Every output (seat matrix or refusal) of the real BiproportionalEvaluator on every generated instance is certified by '
-              'Lean functions whose soundness is proved without size bound: bipropCheck_sound (marginals, zero cells, positive '
-              'multipliers, every cell a signpost rounding) and infeasible_sound (Hall cut => no matrix exists).  The evaluator '
-              'itself is ported to Lean with fuel; column totals are proved invariant, the multiplier update is proved to keep '
-              'every cell between its signposts, and a successful run of the port is proved to meet the row targets.')
+              'Lean functions whose soundness is proved without size bound: bipropCheck_sound (both marginals, zero cells, positive '
+              'multipliers, every cell a signpost rounding) and infeasible_sound (Hall cut => no matrix exists).  In addition the whole '
+              'evaluator (HighestAverages calls, initial solution with tie spreading, initial party multipliers, labelling, transfer, '
+              'multiplier update) is ported to Lean and proved partially correct for all matrices, seat totals and both divisor rules: '
+              'whatever it returns meets the district apportionment, has the highest-averages party apportionment as column sums (itself '
+              'proved a divisor-method apportionment), seats no zero-vote cell and is a cell-wise rounding under its final multipliers '
+              '(evaluate_sound, evaluate_marginals); the port is compared step for step with votelib on every check.')
 LEVEL_NOTE = ('Trusted: Lean kernel + propext/Classical.choice/Quot.sound; translate.py for the divisor functions; the certificate '
               'search (Bellman-Ford / max-flow) is untrusted - a wrong certificate is rejected by the verified checker, a missing '
               'one is reported as a violation; generator bounds 2-6 x 2-6; termination by wall clock only.')
@@ -530,10 +534,10 @@ def model_line(case):
 def compare(case, iobs, mobs):
     if isinstance(mobs, dict) and 'votes_ok' in mobs:
         # the decidable hypotheses of evaluate_ok_sound must hold on real inputs (else the theorem is vacuous there)
-        if mobs.get('votes_ok') is not True:
-            return f'hypothesis votesOk fails on a generated input: {json.dumps(mobs)[:200]}'
+        if mobs.get('votes_ok') is not True or mobs.get('has_votes') is not True:
+            return f'hypothesis votesOk / hasVotes of evaluate_sound fails on a generated input: {json.dumps(mobs)[:200]}'
         if mobs.get('init_ok') is False:
-            return 'hypothesis stateOk fails for the initial state: the initial solution is not consistent with its multipliers'
+            return 'stateOk fails for the initial state although initState_consistent proves it: model/driver mismatch'
         if mobs.get('init_ok') is True:
             _tag(case, 'init_ok_confirmed')
     if 'err' in iobs:
